@@ -330,7 +330,20 @@ def h2_h3(prog: Program, chk: Check) -> None:
         for c in g.nodes[n].calls():
             if call_name(c) == "_apply_system_superoperator":
                 a = c.args[2]
-                tr = isinstance(a, ast.Attribute) and a.attr == "T"
+                # transpositions between the propagator / control and the argument: at the call
+                # or in the plain locals it was handed through (`p = first.T ... apply(p)`)
+                flips, cur, at = 0, a, n
+                for _ in range(6):
+                    if isinstance(cur, ast.Attribute) and cur.attr == "T":
+                        flips, cur = flips + 1, cur.value
+                    elif isinstance(cur, ast.Name):
+                        d_ = du.unique_value(at, cur.id)
+                        if d_ is None or d_.value is None or d_.sel or d_.node == at:
+                            break
+                        cur, at = d_.value, d_.node
+                    else:
+                        break
+                tr = flips % 2 == 1
         chk.add("H2", u, f"backward {k} applied transposed", tr,
                 "" if tr else f"{k} is applied untransposed in the backward pass",
                 g.nodes[n].ast)
@@ -605,9 +618,20 @@ def h4(prog: Program, chk: Check) -> None:
     for x in ast.walk(u.node):
         if isinstance(x, ast.BinOp) and isinstance(x.op, ast.Sub):
             def shifted_eval(e):
-                return isinstance(e, ast.Call) and isinstance(e.func, ast.Name) \
-                    and e.func.id in local_fns and e.args \
-                    and isinstance(e.args[0], ast.BinOp) and isinstance(e.args[0].op, (ast.Add, ast.Sub))
+                """an evaluation of a local function, or of a method of the object (the closure
+                written out), at a shifted parameter point - possibly scaled"""
+                for c_ in ast.walk(e):
+                    if not (isinstance(c_, ast.Call) and c_.args):
+                        continue
+                    local = isinstance(c_.func, ast.Name) and c_.func.id in local_fns
+                    own = isinstance(c_.func, ast.Attribute) and isinstance(c_.func.value, ast.Name) \
+                        and c_.func.value.id == "self"
+                    if not (local or own):
+                        continue
+                    a0 = c_.args[0].value if isinstance(c_.args[0], ast.Starred) else c_.args[0]
+                    if isinstance(a0, ast.BinOp) and isinstance(a0.op, (ast.Add, ast.Sub)):
+                        return True
+                return False
             if shifted_eval(x.left) or shifted_eval(x.right):
                 secants.append(x)
     divided = {id(d.left) for d in ast.walk(u.node)
